@@ -164,6 +164,42 @@ func opStreamRead(t byte, b []byte) op {
 	}, fmt.Sprintf("D %d %s", t, hx(b))}
 }
 
+// opSkip: StreamReader.Skip over a plain reader (discard by reading) or a seeker (discard by
+// seeking); the pooled StreamReader carries `discard`/`_seeker` from one use to the next.
+func opSkip(seek bool, t byte, b []byte) op {
+	sk := "0"
+	if seek {
+		sk = "1"
+	}
+	return op{"stream skip (seek=" + sk + ")", func() (res string) {
+		if p := safely(func() {
+			if seek {
+				br := bytes.NewReader(b)
+				sr := binary.NewStreamReader(br)
+				defer sr.Close()
+				if err := sr.Skip(wire.Type(t)); err != nil {
+					res = "err"
+					return
+				}
+				pos, _ := br.Seek(0, io.SeekCurrent)
+				res = fmt.Sprintf("ok %d", pos)
+				return
+			}
+			pr := &posReader{r: bytes.NewReader(b)}
+			sr := binary.NewStreamReader(pr)
+			defer sr.Close()
+			if err := sr.Skip(wire.Type(t)); err != nil {
+				res = "err"
+				return
+			}
+			res = fmt.Sprintf("ok %d", pr.pos)
+		}); p != "" {
+			return "panic " + p
+		}
+		return
+	}, fmt.Sprintf("K %s %d %s", sk, t, hx(b))}
+}
+
 func opEnvEncode(name []byte, et uint8, seq uint32, body *wv.V) op {
 	e := wire.Envelope{Name: string(name), Type: wire.EnvelopeType(int8(et)), SeqID: int32(seq), Value: body.ToWire()}
 	return op{"envelope encode", func() string {
@@ -412,6 +448,34 @@ func genOps(r *rng.R) []op {
 			}
 			return
 		}, fmt.Sprintf("L %d %s", wv.TStruct, hx(b))},
+		{"generated Decode (streaming) skipping unknown fields", func() (res string) {
+			// the same bytes with two unknown fields (a binary and a list<i64>) before the stop byte:
+			// the generated decoder must skip them (StreamReader.Skip -> discard) and see the same value
+			ext := append([]byte{}, b[:len(b)-1]...)
+			ext = append(ext, 11, 0x7f, 0x01, 0, 0, 0, 5, 'u', 'n', 'k', 'n', 'o')
+			ext = append(ext, 15, 0x7f, 0x02, 10, 0, 0, 0, 3)
+			ext = append(ext, make([]byte, 24)...)
+			ext = append(ext, 0)
+			if p := safely(func() {
+				pr := &posReader{r: bytes.NewReader(ext)}
+				sr := binary.Default.Reader(pr)
+				defer sr.Close()
+				x, err := decode(sr)
+				if err != nil {
+					res = "err"
+					return
+				}
+				t, err := wireText(x)
+				if err != nil {
+					res = "err"
+					return
+				}
+				res = fmt.Sprintf("ok %d %s", pr.pos-(len(ext)-len(b)), t)
+			}); p != "" {
+				return "panic " + p
+			}
+			return
+		}, fmt.Sprintf("D %d %s", wv.TStruct, hx(b))},
 		{"generated Decode (streaming)", func() (res string) {
 			if p := safely(func() {
 				pr := &posReader{r: bytes.NewReader(b)}
@@ -460,6 +524,9 @@ func randomOps(r *rng.R, k int) []op {
 			} else {
 				ops = append(ops, opDecodeForce(t, b))
 			}
+		case 6:
+			v := wv.Gen(r, t, cfg, 0)
+			ops = append(ops, opSkip(r.Bool(), t, v.Encode(nil)))
 		case 4, 5:
 			body := wv.Gen(r, wv.TStruct, cfg, 0)
 			name := r.Bytes(1 + r.Intn(10))
@@ -519,9 +586,64 @@ func (h *echoHandler) Handle(b []byte) ([]byte, error) {
 	return append([]byte("re:"), b...), nil
 }
 
+// bufPipe is an unbounded in-memory pipe: writes never block (like an OS pipe with room),
+// reads block until data or close.
+type bufPipe struct {
+	mu     sync.Mutex
+	cond   *sync.Cond
+	buf    []byte
+	closed bool
+}
+
+func newBufPipe() *bufPipe {
+	p := &bufPipe{}
+	p.cond = sync.NewCond(&p.mu)
+	return p
+}
+
+func (p *bufPipe) Write(b []byte) (int, error) {
+	p.mu.Lock()
+	defer p.mu.Unlock()
+	if p.closed {
+		return 0, io.ErrClosedPipe
+	}
+	p.buf = append(p.buf, b...)
+	p.cond.Broadcast()
+	return len(b), nil
+}
+
+func (p *bufPipe) Read(b []byte) (int, error) {
+	p.mu.Lock()
+	defer p.mu.Unlock()
+	for len(p.buf) == 0 && !p.closed {
+		p.cond.Wait()
+	}
+	if len(p.buf) == 0 {
+		return 0, io.EOF
+	}
+	n := copy(b, p.buf)
+	p.buf = p.buf[n:]
+	return n, nil
+}
+
+func (p *bufPipe) Close() error {
+	p.mu.Lock()
+	p.closed = true
+	p.cond.Broadcast()
+	p.mu.Unlock()
+	return nil
+}
+
 func sendRound(r *rng.R, k int, res *result) {
-	c2sR, c2sW := io.Pipe()
-	s2cR, s2cW := io.Pipe()
+	var c2sR, s2cR io.ReadCloser
+	var c2sW, s2cW io.WriteCloser
+	if r.Bool() {
+		c2sR, c2sW = io.Pipe() // synchronous: a write waits for its reader
+		s2cR, s2cW = io.Pipe()
+	} else {
+		a, b := newBufPipe(), newBufPipe() // buffered: writes complete at once
+		c2sR, c2sW, s2cR, s2cW = a, a, b, b
+	}
 	rec := &recordingWriter{w: c2sW}
 	client := verifhook.NewFrameClient(rec, s2cR)
 	server := verifhook.NewFrameServer(c2sR, s2cW)
@@ -564,8 +686,13 @@ func sendRound(r *rng.R, k int, res *result) {
 	go func() { wg.Wait(); close(done) }()
 	select {
 	case <-done:
-	case <-time.After(60 * time.Second):
-		res.Mismatches = append(res.Mismatches, mismatch{Kind: "C18 concurrent Sends deadlocked", Input: fmt.Sprintf("K=%d", k)})
+	case <-time.After(20 * time.Second):
+		// goroutines are stuck for good: report and stop the whole child here
+		mu.Lock()
+		res.Mismatches = append(res.Mismatches, mismatch{Kind: "C18 concurrent Sends deadlocked", Input: fmt.Sprintf("K=%d senders on one frame client against a sequential echo server over io.Pipe", k),
+			Got: "no progress for 20s", Want: "every Send returns its own echo"})
+		mu.Unlock()
+		finish(res)
 	}
 	c2sW.Close()
 	s2cR.Close()
@@ -683,7 +810,7 @@ func mergeRound(r *rng.R, k int, res *result) {
 func main() {
 	seed := flag.Uint64("seed", 1, "seed")
 	tier := flag.String("tier", "quick", "quick|thorough")
-	outPath := flag.String("out", "", "result file")
+	outPath = flag.String("out", "", "result file")
 	flag.Parse()
 	r := rng.New(*seed*0x9E3779B97F4A7C15 + 0x1800)
 	r.U64()
@@ -769,9 +896,17 @@ func main() {
 			}
 		}
 	}
+	finish(res)
+}
+
+var outPath *string
+
+// finish writes the result file and ends the process.
+func finish(res *result) {
 	b, _ := json.Marshal(res)
 	if err := os.WriteFile(*outPath, b, 0o644); err != nil {
 		fmt.Fprintln(os.Stderr, err)
 		os.Exit(3)
 	}
+	os.Exit(0)
 }
